@@ -1,6 +1,7 @@
 import Vflow.Proofs.JsonTree
 import Vflow.Props.C08
 import Vflow.Proofs.SflowJsonTree
+import Vflow.Proofs.JsonAccepted
 /-!
 # C05 — every published message is valid JSON that faithfully carries the decode
 
@@ -133,6 +134,38 @@ theorem sflow_published_valid (d : Datagram) (bs : Bytes) (h : sflowJson? d = so
 /-- the sampled packet alone (what the `dissect` correspondence compares) -/
 theorem sflow_packet_valid (p : Packet.Pkt) : DVal (render (pktTree p)) (pktTree p) :=
   derives_render _ (wf_pktTree p)
+
+/-! ## Accepted by Go's own validator
+
+`Spec.jsonValid` is the Lean port of `encoding/json`'s scanner (`scanner.go`, including its nesting limit of
+10000), tied to the real `json.Valid` by the `jsonvalid` correspondence of C11.  Every published payload of the
+four protocols is accepted by it — the message trees nest 4 (IPFIX, NetFlow v9), 3 (NetFlow v5) and at most 6
+(sFlow) deep (`Proofs/JsonAccepted.lean`), so the depth hypothesis of `JsonScan.render_valid` is discharged. -/
+
+theorem ipfix_marshal_accepted (a : Bytes) (hdr : List Nat) (recs : List (List JField))
+    (hf : ∀ r ∈ recs, ∀ f ∈ r, FloatOk f) : jsonValid (Ipfix.marshal (ipBytes a) hdr recs) = true := by
+  rw [ipfix_marshal_eq_render]
+  refine JsonScan.render_valid _ (ipfix_tree_wf a hdr recs hf) ?_
+  rw [ipfixTree_eq]
+  exact Nat.le_trans (JsonAccepted.depth_flowMsgTree _ a hdr recs) (by decide)
+
+theorem v9_marshal_accepted (a : Bytes) (hdr : List Nat) (recs : List (List JField))
+    (hf : ∀ r ∈ recs, ∀ f ∈ r, FloatOk f) : jsonValid (V9.marshal (ipBytes a) hdr recs) = true := by
+  rw [v9_marshal_eq_render]
+  refine JsonScan.render_valid _ (v9_tree_wf a hdr recs hf) ?_
+  rw [v9Tree_eq]
+  exact Nat.le_trans (JsonAccepted.depth_flowMsgTree _ a hdr recs) (by decide)
+
+theorem v5_marshal_accepted (a : Bytes) (m : V5.Msg) : jsonValid (V5.marshal (ipBytes a) m) = true := by
+  rw [v5_marshal_eq_render]
+  exact JsonScan.render_valid _ (C08.v5_tree_wf a m) (Nat.le_trans (JsonAccepted.depth_v5Tree a m) (by decide))
+
+theorem sflow_published_accepted (d : Datagram) (bs : Bytes) (h : sflowJson? d = some bs) : jsonValid bs = true := by
+  unfold sflowJson? at h
+  split at h
+  · injection h with h; rw [← h]
+    exact JsonScan.render_valid _ (sflow_tree_wf d) (Nat.le_trans (JsonAccepted.depth_sflowTree d) (by decide))
+  · simp at h
 
 /-- address strings of the sampled header are carried verbatim: for a non-empty address the `Src` / `Dst`
 string leaf is exactly `net.IP.String()` (the escaping `encoding/json` applies is the identity on it) -/
